@@ -7,6 +7,7 @@ mod interpose;
 mod minimise;
 mod oracle;
 mod scenarios;
+mod selftest;
 mod specgen;
 mod t_exit;
 mod t_fsm;
@@ -88,6 +89,10 @@ fn main() {
                     println!("{}", r.stdout_str());
                 }
             }
+        }
+        Some("selftest") => {
+            let tier = args.get(2).map(|s| tier_of(s)).unwrap_or(Tier::Quick);
+            std::process::exit(selftest::run(tier));
         }
         Some("replay") if args.len() >= 3 => {
             std::process::exit(framework::replay(std::path::Path::new(&args[2])));
